@@ -108,6 +108,44 @@ pub proof fn lemma_hits_prefix(a: Seq<Node>, b: Seq<Node>, j: int, pat: spec_fn(
         assert((a + b)[j - 1] == a[j - 1]);
     }
 }
+/// C19, stated over the spec: for a detector in hits-form the findings of a file are the union of the findings of its
+/// top-level items (the SourceUnit node itself has kind SourceUnit and is never a pattern node when SourceUnit is not wanted)
+pub open spec fn hits_of_parts(t: Set<Target>, parts: Seq<pt::SourceUnitPart>, k: int, pat: spec_fn(Node) -> bool, loc: spec_fn(Node) -> pt::Loc) -> Set<pt::Loc>
+    decreases k
+{
+    if 0 < k <= parts.len() {
+        hits_of_parts(t, parts, k - 1, pat, loc).union(hits_all(flt(t, all_nodes(Node::SourceUnitPart(parts[k - 1]))), pat, loc))
+    } else { Set::<pt::Loc>::empty() }
+}
+pub proof fn lemma_c19_parts(t: Set<Target>, parts: Seq<pt::SourceUnitPart>, k: int, pat: spec_fn(Node) -> bool, loc: spec_fn(Node) -> pt::Loc)
+    requires 0 <= k <= parts.len()
+    ensures hits_all(flt(t, an_vec_SourceUnitPart(parts, k)), pat, loc) =~= hits_of_parts(t, parts, k, pat, loc)
+    decreases k
+{
+    broadcast use lemma_flt_add, lemma_flt_empty;
+    if k > 0 {
+        lemma_c19_parts(t, parts, k - 1, pat, loc);
+        let a = flt(t, an_vec_SourceUnitPart(parts, k - 1));
+        let b = flt(t, an_SourceUnitPart(parts[k - 1]));
+        assert(an_vec_SourceUnitPart(parts, k) == an_vec_SourceUnitPart(parts, k - 1) + an_SourceUnitPart(parts[k - 1]));
+        assert(flt(t, an_vec_SourceUnitPart(parts, k)) == a + b);
+        lemma_hits_concat(a, b, b.len() as int, pat, loc);
+        assert(all_nodes(Node::SourceUnitPart(parts[k - 1])) == an_SourceUnitPart(parts[k - 1]));
+    } else {
+        assert(flt(t, an_vec_SourceUnitPart(parts, 0)) =~= Seq::<Node>::empty());
+    }
+}
+pub proof fn lemma_c19_file(t: Set<Target>, su: pt::SourceUnit, pat: spec_fn(Node) -> bool, loc: spec_fn(Node) -> pt::Loc)
+    requires !t.contains(Target::SourceUnit)
+    ensures hits_all(spec_walk(t, Node::SourceUnit(su)), pat, loc) =~= hits_of_parts(t, su.0@, su.0@.len() as int, pat, loc)
+{
+    broadcast use lemma_flt_add, lemma_flt_one, lemma_flt_empty;
+    let parts = su.0@;
+    lemma_c19_parts(t, parts, parts.len() as int, pat, loc);
+    assert(all_nodes(Node::SourceUnit(su)) == seq![Node::SourceUnit(su)] + an_vec_SourceUnitPart(parts, parts.len() as int));
+    assert(flt(t, seq![Node::SourceUnit(su)]) =~= Seq::<Node>::empty());
+    assert(spec_walk(t, Node::SourceUnit(su)) =~= flt(t, an_vec_SourceUnitPart(parts, parts.len() as int)));
+}
 /// every element of a filtered sequence satisfies the filter (used for the unwrap() sites of detectors)
 pub proof fn lemma_flt_wanted(t: Set<Target>, s: Seq<Node>, i: int)
     requires 0 <= i < flt(t, s).len()
@@ -396,6 +434,11 @@ def build(ctx, unit_name, only=None, probe=None):
         u.add_splice(sp)
     for lem in getattr(tab, "LEMMAS", []):
         obligations.append(("lemma:%s" % lem[0], lem[1]))
+    for lem in (("lemma_c19_file", "C19 over the spec: hits over a file == union of hits over its top-level items"),
+                ("lemma_hits_concat", "hits distributes over concatenation"),
+                ("lemma_hits_contains", "a location is reported iff some extracted node matches and has that location")):
+        if not any(o[0] == "lemma:" + lem[0] for o in obligations):
+            obligations.append(("lemma:%s" % lem[0], lem[1]))
     u.raw(C.EPILOGUE, "epilogue")
     u.obligations = obligations
     return u
